@@ -64,6 +64,7 @@ class Theory:
         self.side = []      # (description, formula that must hold)  -- discharged by the driver, not assumed
         self.side_pc = []   # parallel to side: path condition (tuple) under which the operation was executed
         self.side_kind = []  # parallel: (op, 'sym'|'const', 'sym'|'const')
+        self.declined = False
         self.cur_pc = ()
         self.n = 0
         self.memo = {}
@@ -166,6 +167,7 @@ class TRe64(TReal):
             r = self.fold(op, a.exact, b.exact)
             if r is not None:
                 return self.const(r)
+            self.declined = True       # concrete operands with a non-finite result (outside T_re64)
         key = (op, a.term.get_id(), b.term.get_id())
         if op in ("Mul", "Add") and key[1] > key[2]:
             key = (op, key[2], key[1])
@@ -214,6 +216,7 @@ class TRed(TReal):
             r = self.fold(op, a.exact, b.exact)
             if r is not None and abs(r) < DEC_LIMIT:
                 return self.const(r)
+            self.declined = True       # concrete operands but the result may not be representable (or divisor zero)
         x, y = a.term, b.term
         if op in ("Add", "Sub"):
             t = x + y if op == "Add" else x - y
